@@ -318,57 +318,9 @@ def rule_own(c, prog):
 
 
 def rule_scratch(c, prog, R="C08.scratch"):
-    """per-value scratch buffers in the encoder arms must not carry one value's bytes into the next"""
-    c.rule(R, "in serialize_properties a buffer that is filled per value (`x.to_writer(&mut buf)`, push/extend) and written per value (`chunk.write_*(&buf)`) inside a per-value loop is declared inside that loop or cleared there: a buffer hoisted out of the loop makes every later instance's blob start with the earlier instances' bytes")
-    fn = common.find_fn(prog, r"serializer::state::SerializerState.*::serialize_properties$")
-    n = 0
-    for lp_node in core.walk_fn(fn, into_closures=False):
-        fl = core.as_for(lp_node)
-        if fl is None or lp_node.get("k") == "DropTemps":
-            continue
-        body = fl[2]
-        declared = set()
-        for st in core.walk_lets(body):
-            stack = [st.get("pat")]
-            while stack:
-                x = stack.pop()
-                if isinstance(x, dict):
-                    if x.get("k") == "Binding":
-                        declared.add(x["lid"])
-                    stack.extend(v for v in x.values() if isinstance(v, (dict, list)))
-                elif isinstance(x, list):
-                    stack.extend(x)
-        filled, written, cleared = {}, {}, set()
-        for x in core.walk(body, into_closures=False):
-            if x.get("k") in ("MethodCall", "Call"):
-                args = core.call_args(x)
-                nm = (core.callee_generic(x) or "").rsplit("::", 1)[-1]
-                # &mut <local> handed to a callee, or a growing method on the local itself
-                for i, a in enumerate(args):
-                    a0 = a
-                    is_mut = a0.get("k") == "AddrOf" and a0.get("mut")
-                    base = core.strip(a0)
-                    if base.get("k") == "Path" and base.get("res") == "local" and base["lid"] not in declared and "alloc::vec::Vec<u8>" in ((base.get("ty") or "") + (a0.get("ty") or "")):
-                        if is_mut or (i == 0 and nm in ("push", "extend", "extend_from_slice", "append", "write_all", "resize")):
-                            if nm in ("clear", "truncate"):
-                                cleared.add(base["lid"])
-                            else:
-                                filled[base["lid"]] = (base.get("name"), x)
-                        elif i == 0 and nm in ("clear", "truncate"):
-                            cleared.add(base["lid"])
-                        elif nm.startswith("write_") and i >= 1:
-                            written[base["lid"]] = (base.get("name"), x)
-            if x.get("k") == "Assign" and core.strip(x["l"]).get("res") == "local":
-                cleared.add(core.strip(x["l"])["lid"])
-        for lid in set(filled) & set(written):
-            n += 1
-            inst = f"scratch:{filled[lid][0]}"
-            if lid in cleared:
-                c.ok(R, inst)
-            else:
-                c.violation(R, f"carried|{core.fingerprint(written[lid][1], 2).split('(')[0]}", f"serialize_properties fills `{filled[lid][0]}` and writes it once per value inside a loop, but the buffer is declared outside that loop and never cleared in it: the blob written for the k-th instance starts with the bytes of the k-1 instances before it (the reader decodes the first one again and ignores the rest)", core.loc(filled[lid][1]), instance=inst)
-    if n == 0:
-        c.ok(R, "no-carried-scratch-buffers")
+    """per-value scratch buffers of the binary writer must not carry one value's bytes into the next"""
+    fns = [f for f in prog.lib_fns() if f.crate == "rbx_binary" and "::serializer::" in f.path]
+    common.rule_scratch(c, prog, R, fns, what="instance")
 
 
 def rule_default(c, prog):
@@ -462,8 +414,53 @@ def rule_col(c, prog):
         c.violation(R, "values|source", "the column values are not `<class>.instances.iter().map(..).enumerate()` (one value per instance, INST order)", fn.sp, instance="values:one-per-instance-in-order")
 
 
+def rule_sstr_default(c, prog, R="C08.state"):
+    """the column default that is stored is the value that was checked for being a SharedString"""
+    fn = common.find_fn(prog, r"serializer::state::SerializerState.*::collect_type_info$")
+    inst = "sstr:column-default-registered"
+    lits = [x for x in core.walk_fn(fn) if x.get("k") == "Struct" and (x.get("def") or "").endswith("::PropInfo")]
+    if not lits:
+        raise core.AnchorMissing("collect_type_info builds no PropInfo")
+    stored = None
+    for f in lits[0]["fields"]:
+        if f.get("f") == "default_value":
+            e = core.strip(f["e"])
+            if e.get("k") == "Path" and e.get("res") == "local":
+                stored = e["lid"]
+    if stored is None:
+        c.not_decided.append("PropInfo.default_value is not filled from a local")
+        return
+    # registrations: a test for Variant::SharedString whose taken branch pushes onto the SharedString list
+    tests = []
+    for n in core.walk_fn(fn):
+        scr, body = None, None
+        if n.get("k") == "If" and core.strip(n["c"]).get("k") == "LetExpr" and "SharedString" in core.pat_str(core.strip(n["c"])["pat"]):
+            scr, body = core.strip(n["c"])["init"], n["t"]
+        elif n.get("k") == "Match" and n.get("src") == "Normal":
+            arms = [a for a in n["arms"] if "SharedString" in core.pat_str(a["pat"])]
+            if arms:
+                scr, body = n["e"], arms[0]["body"]
+        if scr is None:
+            continue
+        pushes = any(y.get("k") in ("MethodCall", "Call") and ((y.get("m") == "push" and "SharedString" in (core.strip(y["recv"]).get("ty") or "")) or (core.callee_generic(y) or "").endswith("track_shared_string") or any("Vec<rbx_types::shared_string::SharedString>" in (a.get("ty") or "") for a in core.call_args(y))) for y in core.walk(body))
+        if pushes:
+            tests.append(scr)
+    on_stored = [t for t in tests if any(y.get("k") == "Path" and y.get("res") == "local" and y.get("lid") == stored for y in core.walk(t))]
+    if on_stored:
+        c.ok(R, inst)
+    else:
+        c.violation(R, "sstr|default-not-registered", "collect_type_info stores a column default that was never tested for being a SharedString (the registration looks at another value — e.g. only the database default, not the type fallback): instances that lack the property are filled with a SharedString that has no SSTR index, and serialize_properties fails although every instance serializes alone", fn.sp, instance=inst)
+
+
 def run(c, prog):
+    from . import C16 as _C16
+    from sa import db as _dbm
+    _C16.rule_sername(core.Alias(c, "C08"), prog, _dbm.Database())     # two canonical properties written under one name lose a value
+    _C16.rule_dflt(core.Alias(c, "C08"), prog)     # the column default: nearest class recording one, a root class included
+    from . import C15 as _C15
+    _C15.rule_memo(core.Alias(c, "C08"), prog)     # what is recorded per class must not depend on the instance visited first
     rule_state(c, prog)
+    rule_sstr_default(c, prog)
     rule_own(c, prog)
     rule_default(c, prog)
     rule_col(c, prog)
